@@ -523,3 +523,34 @@ def c17(a):
               "jiff-static copy accept the same TZif data.")
     c.assumptions = TRUSTED + ["wall-clock timing for the proportional-work bound (5 ms per KiB)", "exploration, not exhaustive: inputs are sampled"]
     return c.finish()
+
+
+@prop("C05")
+def c05(a):
+    c = Check("C05", a.tier, a.seed)
+    wd = workdir("C05")
+    dbg = build_harness()
+    rel = build_harness(profile="nodebug")
+    sys.path.insert(0, os.path.join(VERIF, "lib"))
+    import merge2
+    ex = ["--replay", a.replay] if a.replay else []
+    run_driver(dbg, "c05", os.path.join(wd, "dbg"), a.tier, a.seed, ex)
+    run_driver(rel, "c05", os.path.join(wd, "rel"), a.tier, a.seed, ex)
+    s = merge2.merge(os.path.join(wd, "dbg"), os.path.join(wd, "rel"), os.path.join(wd, "both"))
+    c.add_summary(s)
+    results, mism = tlc_trace("Trace_Fallible.tla", s["files"], "C05")
+    c.add_trace(results, mism, driver_cmd=f"jv c05 --tier {a.tier} --seed {a.seed} (profiles dev and nodebug)")
+    c.rule = ("One event per call of a fallible (or saturating / wrapping) public operation, made with identical arguments by "
+              "the same deterministic driver under a build with debug assertions and overflow checks and under one without: "
+              "constructors of every type at and around every field limit; Date/Time/DateTime/Timestamp/Zoned checked, "
+              "saturating and wrapping arithmetic with spans (every unit at +-limit, limit-1, all units at their limits, seeded "
+              "mixes) and with SignedDuration extremes; until/since with every (smallest, largest, mode, increment) "
+              "including illegal increments (0, -1, i64::MAX); round of every type over unit x mode x increment; with-"
+              "builders over every setter at and beyond its range; navigation (tomorrow, nth_weekday, start/end of day, "
+              "first/last of month/year); zone conversion of extreme civil datetimes in fixed +-25:59:59, IANA and POSIX "
+              "zones under every strategy; series; Span checked_add/sub/mul/compare/total/round/to_duration without and "
+              "with date, datetime and zoned references and the days-are-24-hours marker; SignedDuration and Offset "
+              "arithmetic and rounding; ISOWeekDate. Trace_Fallible.tla decides: no panic in either build, same status and "
+              "value in both, Ok value inside the range of Ranges.tla.")
+    c.assumptions = TRUSTED + ["the harness's projection of values", "the two cargo profiles differ only in debug-assertions and overflow-checks"]
+    return c.finish()
